@@ -39,6 +39,11 @@ def main():
             except OSError:
                 extra = -1
             os.write(1, f'KILL {cnt[0]} {code.co_qualname} {line} {int(bool(l is not None and l.is_locked))} {extra}\n'.encode())
+            hold = float(os.environ.get('VERIF_CHILD_HOLD') or 0)
+            if hold and l is not None and l.is_locked:
+                # a holder that has had the lock for a while when it dies (a waiter is many attempts into its acquire)
+                import time
+                time.sleep(hold)
             os.kill(os.getpid(), signal.SIGKILL)
 
     mon.register_callback(3, mon.events.LINE, cb)
